@@ -151,13 +151,16 @@ void checkHC(pbt::Ctx& ctx, const cgen::Scenario& sc, cgen::Scene& sn, const Sta
 
 // ------------------------------------------------------------------------------------------ mesh springs (both EF)
 struct Spring { int face; Vec3 cg, N, e; Real x, area; };   // e: unit from the other object's surface point N towards the spring base cg (into the other object)
-std::vector<Spring> meshSprings(const cgen::Scenario& sc, const Transform& X_GM, const cgen::Surf& other, const Transform& X_GO, Real& minMargin) {
+struct Other { int shape; Real R; const cgen::MeshData* mesh; Transform X; };   // the object the springs of a mesh press into (frame in Ground)
+std::vector<Spring> meshSprings(const cgen::MeshData& md, const Transform& X_GM, const Other& o, Real& minMargin, bool* ambiguous = nullptr) {
     std::vector<Spring> out; minMargin = 1e300;
-    for (int f = 0; f < sc.mesh.nFaces(); ++f) {
-        Spring sp; sp.face = f; sp.cg = X_GM * sc.mesh.centroid(f); sp.area = sc.mesh.area(f);
+    for (int f = 0; f < md.nFaces(); ++f) {
+        Spring sp; sp.face = f; sp.cg = X_GM * md.centroid(f); sp.area = md.area(f);
         Real inside;   // > 0 inside
-        if (other.shape == cgen::ShSphere) { Vec3 d = sp.cg - X_GO.p(); Real dn = d.norm(); inside = other.R - dn; if (dn == 0) continue; sp.N = X_GO.p() + other.R * (d / dn); }
-        else { Vec3 nh = -(X_GO.R() * Vec3(1, 0, 0)); Real h = ~(sp.cg - X_GO.p()) * nh; inside = -h; sp.N = sp.cg - h * nh; }
+        if (o.shape == cgen::ShSphere) { Vec3 d = sp.cg - o.X.p(); Real dn = d.norm(); inside = o.R - dn; if (dn == 0) continue; sp.N = o.X.p() + o.R * (d / dn); }
+        else if (o.shape == cgen::ShMesh) {     // brute force: nearest point over all triangles, inside by ray parity
+            cgen::MeshQuery q = cgen::queryMesh(*o.mesh, ~o.X * sp.cg); inside = q.inside ? q.dist : -q.dist; sp.N = o.X * q.nearest; if (q.ambiguous && ambiguous) *ambiguous = true; }
+        else { Vec3 nh = -(o.X.R() * Vec3(1, 0, 0)); Real h = ~(sp.cg - o.X.p()) * nh; inside = -h; sp.N = sp.cg - h * nh; }
         minMargin = std::min(minMargin, std::fabs(inside));
         if (inside <= 0) continue;
         sp.x = inside; sp.e = (sp.cg - sp.N) / sp.x; out.push_back(sp);
@@ -167,35 +170,52 @@ std::vector<Spring> meshSprings(const cgen::Scenario& sc, const Transform& X_GM,
 
 void checkEFF(pbt::Ctx& ctx, const cgen::Scenario& sc, cgen::Scene& sn, const State& s) {
     Vector_<SpatialVec> bf; Vector mf; sn.elementForces(s, bf, mf);
-    const int M = sc.meshOnBase ? sc.A : sc.B, O = sc.meshOnBase ? sc.B : sc.A;
-    const cgen::Surf& ms = sc.meshOnBase ? sc.s1 : sc.s2; const cgen::Surf& os = sc.meshOnBase ? sc.s2 : sc.s1;
-    BodyKin kM = cgen::kinOf(sn.body(M), s), kO = cgen::kinOf(sn.body(O), s);
-    Transform X_GM = kM.X * (sc.meshOnBase ? sc.s1.X_BS : sn.X_BS2), X_GO = kO.X * (sc.meshOnBase ? sn.X_BS2 : sc.s1.X_BS);
-    Real margin; std::vector<Spring> sp = meshSprings(sc, X_GM, os, X_GO, margin);
-    Real L = std::max(Real(1), X_GM.p().norm() + X_GO.p().norm()) + 2;
+    BodyKin kA = cgen::kinOf(sn.body(sc.A), s), kB = cgen::kinOf(sn.body(sc.B), s);
+    const Transform X_G1 = kA.X * sc.s1.X_BS, X_G2 = kB.X * sn.X_BS2;
+    // one "side" per parametrised mesh: its springs press into the other surface. Two parametrised meshes in contact
+    // share the patch: documented "scale each one's contributions by 50%" (class doc: the springs on each mesh are treated independently)
+    struct Side { const cgen::MeshData* md; Transform X_GM; const cgen::Material* mat; const BodyKin* kM; const BodyKin* kO; Other other; bool meshIsBase; };
+    std::vector<Side> sides;
+    if (sc.paramBase && sc.s1.shape == cgen::ShMesh) sides.push_back({&sc.mesh, X_G1, &sc.s1.mat, &kA, &kB, Other{sc.s2.shape, sc.s2.R, &sc.meshOf(true), X_G2}, true});
+    if (sc.paramProbe && sc.s2.shape == cgen::ShMesh) sides.push_back({&sc.meshOf(true), X_G2, &sc.s2.mat, &kB, &kA, Other{sc.s1.shape, sc.s1.R, &sc.mesh, X_G1}, false});
+    const Real areaScale = sides.size() == 2 ? 0.5 : 1.0;
+    Real L = std::max(Real(1), X_G1.p().norm() + X_G2.p().norm()) + 2;
     std::string K = "EFF";
     ctx.label(K + "/" + cgen::shapeName(sc.s1.shape) + "-" + cgen::shapeName(sc.s2.shape));
-    if (margin < 100 * EPS * L) { ctx.label(K + "/onset-ambiguous"); return; }
-    ctx.label(K + (sp.empty() ? "/no-spring-displaced" : sp.size() < 4 ? "/1-3 springs" : "/4+ springs"));
-    SpatialVec FM(Vec3(0), Vec3(0)); Real absSum = 0; bool nt = false; int active = 0, yank = 0;
-    const Real k = ms.mat.E, c = ms.mat.c;
-    for (auto& q : sp) {
-        Vec3 v = pointVel(kO, q.N) - pointVel(kM, q.N);      // other relative to mesh at the contact point
-        Real xdot = -(~v * q.e);                              // q.e points into the other object: x grows when the other moves along -e ... see notes
-        Vec3 slip = v + xdot * q.e; Real vs = slip.norm();
-        Real f = k * q.area * q.x * (1 + c * xdot);
-        if (f <= 0) { ++yank; continue; }
-        ++active;
-        Vec3 Fmesh = -f * q.e;                                 // pushes the mesh out of the other object
-        if (vs > 0) Fmesh += (f * hollars(ms.mat.us, ms.mat.ud, ms.mat.uv, vs, sc.vt) / vs) * slip;   // dragged along with the other body
-        FM[1] += Fmesh; FM[0] += (q.N - kM.X.p()) % Fmesh; absSum += Fmesh.norm() * (1 + (q.N - kM.X.p()).norm());
-        if (vs > 1e-9 && std::fabs(xdot) > 1e-9) nt = true;
+    if (sc.meshMesh) ctx.label(sides.size() == 2 ? "eff:mesh-mesh" : "eff:mesh-mesh(one mesh parametrised)");
+    SpatialVec FA(Vec3(0), Vec3(0)), FB(Vec3(0), Vec3(0)); Real absSum = 0, margin = 1e300, peExp = 0; bool nt = false, ambiguous = false; int active = 0, yank = 0, nsp = 0, sidesActive = 0;
+    for (const Side& sd : sides) {
+        Real mg; std::vector<Spring> sp = meshSprings(*sd.md, sd.X_GM, sd.other, mg, &ambiguous); margin = std::min(margin, mg); nsp += (int)sp.size();
+        const Real k = sd.mat->E, c = sd.mat->c; int act0 = active;
+        for (auto& q : sp) {
+            Vec3 v = pointVel(*sd.kO, q.N) - pointVel(*sd.kM, q.N);      // other relative to mesh at the contact point
+            Real xdot = -(~v * q.e);                                        // q.e points into the other object
+            Vec3 slip = v + xdot * q.e; Real vs = slip.norm();
+            Real f = k * (areaScale * q.area) * q.x * (1 + c * xdot);
+            peExp += 0.5 * k * (areaScale * q.area) * q.x * q.x;      // energy stored in the documented linear spring k a x (every displaced spring)
+            if (f <= 0) { ++yank; continue; }
+            ++active;
+            Vec3 Fmesh = -f * q.e;                                 // pushes the mesh out of the other object
+            if (vs > 0) Fmesh += (f * hollars(sd.mat->us, sd.mat->ud, sd.mat->uv, vs, sc.vt) / vs) * slip;   // dragged along with the other body
+            SpatialVec& FM = sd.meshIsBase ? FA : FB; SpatialVec& FO = sd.meshIsBase ? FB : FA;
+            FM[1] += Fmesh; FM[0] += (q.N - sd.kM->X.p()) % Fmesh; FO[1] -= Fmesh; FO[0] -= (q.N - sd.kO->X.p()) % Fmesh;
+            absSum += Fmesh.norm() * (1 + (q.N - sd.kM->X.p()).norm() + (q.N - sd.kO->X.p()).norm());
+            if (vs > 1e-9 && std::fabs(xdot) > 1e-9) nt = true;
+        }
+        if (active > act0) ++sidesActive;
     }
+    if (ambiguous || margin < 100 * EPS * L) { ctx.label(K + "/onset-ambiguous"); return; }
+    ctx.label(K + (nsp == 0 ? "/no-spring-displaced" : nsp < 4 ? "/1-3 springs" : "/4+ springs"));
     if (active) ctx.label(K + "/active"); if (yank) ctx.label(K + "/some-springs-yanked");
+    if (sc.meshMesh && sidesActive == 2) ctx.label("eff:mesh-mesh/both-directions-active");
     Real tol = (1e-8 + 1000 * EPS * L / std::max(margin, Real(1e-300))) * absSum;
-    if (sp.empty()) { if (bf[M][0].norm() + bf[M][1].norm() + bf[O][0].norm() + bf[O][1].norm() != 0) ctx.fail("EFF: no spring base inside the other object but force applied " + S3(bf[M][1])); return; }
-    if ((bf[M][1] - FM[1]).norm() > tol || (bf[M][0] - FM[0]).norm() > tol)
-        ctx.fail("EFF: wrench on mesh body F=" + S3(bf[M][1]) + " T=" + S3(bf[M][0]) + " != sum over displaced springs of k a x (1+c v) + Hollars friction: F=" + S3(FM[1]) + " T=" + S3(FM[0]) + " (springs " + std::to_string(sp.size()) + ", tol " + S(tol) + ")");
+    if (nsp == 0) { if (bf[sc.A][0].norm() + bf[sc.A][1].norm() + bf[sc.B][0].norm() + bf[sc.B][1].norm() != 0) ctx.fail("EFF: no spring base inside the other object but force applied " + S3(bf[sc.B][1])); return; }
+    if ((bf[sc.A][1] - FA[1]).norm() > tol || (bf[sc.A][0] - FA[0]).norm() > tol || (bf[sc.B][1] - FB[1]).norm() > tol || (bf[sc.B][0] - FB[0]).norm() > tol)
+        ctx.fail("EFF: wrench on base body F=" + S3(bf[sc.A][1]) + " T=" + S3(bf[sc.A][0]) + " / probe body F=" + S3(bf[sc.B][1]) + " T=" + S3(bf[sc.B][0]) + " != sum over displaced springs of k a x (1+c v) + Hollars friction: base F=" + S3(FA[1]) + " T=" + S3(FA[0]) + " / probe F=" + S3(FB[1]) + " T=" + S3(FB[0]) + " (springs " + std::to_string(nsp) + ", area scale " + S(areaScale) + ", tol " + S(tol) + ")");
+    // potential energy = integral of the documented elastic spring law k a x of every displaced spring (with the 50% area
+    // share when two parametrised meshes touch): sum 1/2 k a x^2
+    Real peGot = sn.elementPE(s), peTol = 2 * (1e-8 + 1000 * EPS * L / std::max(margin, Real(1e-300))) * peExp;
+    if (!ctx.failed && std::fabs(peGot - peExp) > peTol) ctx.fail("EFF: potential energy " + S(peGot) + " != sum over displaced springs of 1/2 k a x^2 = " + S(peExp) + " (springs " + std::to_string(nsp) + ", area scale " + S(areaScale) + ")");
     ctx.nontrivial(nt);
 }
 
@@ -322,7 +342,7 @@ void checkCcsEF(pbt::Ctx& ctx, const cgen::Scenario& sc, cgen::Scene& sn, State&
     const cgen::Surf& ms = sc.meshOnBase ? sc.s1 : sc.s2; const cgen::Surf& os = sc.meshOnBase ? sc.s2 : sc.s1;
     BodyKin kM = cgen::kinOf(sn.body(M), s), kO = cgen::kinOf(sn.body(O), s);
     Transform X_GM = kM.X * (sc.meshOnBase ? sc.s1.X_BS : sn.X_BS2), X_GO = kO.X * (sc.meshOnBase ? sn.X_BS2 : sc.s1.X_BS);
-    Real margin; std::vector<Spring> sp = meshSprings(sc, X_GM, os, X_GO, margin);
+    Real margin; std::vector<Spring> sp = meshSprings(sc.mesh, X_GM, Other{os.shape, os.R, nullptr, X_GO}, margin);
     Real L = std::max(Real(1), X_GM.p().norm() + X_GO.p().norm()) + 2;
     ctx.label(K + "/" + cgen::shapeName(sc.s1.shape) + "-" + cgen::shapeName(sc.s2.shape));
     if (margin < 100 * EPS * L) { ctx.label(K + "/onset-ambiguous"); return; }
@@ -535,7 +555,7 @@ pbt::Config config() {
                      "CompliantContactSubsystem combines material properties as documented for HuntCrossleyForce (E, c, friction coefficients); where the combination is not documented the check uses the interval spanned by the two materials (exact when they are equal)",
                      "Hertz elliptical: library documents approximations (ellipse ratio to 5 digits, K(m),E(m)); band 1e-4 (observed max < 1e-5) against Hertz theory evaluated with AGM elliptic integrals"};
     c.requiredLabels = {"element:HuntCrossleyForce", "element:ElasticFoundationForce", "element:CCS-HertzCircular", "element:CCS-HertzElliptical", "element:CCS-ElasticFoundation", "element:CCS-BrickHalfSpace",
-                        "element:SmoothSphereHalfSpaceForce", "element:ExponentialSpringForce", "HC/two-probes-one-clamped", "HC/rate:yank", "HC/slip:transition", "EFF/active", "EFF/some-springs-yanked", "CcsEF/active",
+                        "element:SmoothSphereHalfSpaceForce", "element:ExponentialSpringForce", "HC/two-probes-one-clamped", "HC/rate:yank", "HC/slip:transition", "EFF/active", "EFF/some-springs-yanked", "eff:mesh-mesh", "eff:mesh-mesh/both-directions-active", "CcsEF/active",
                         "CcsEF/equal-dissipation(exact)", "HertzCirc/sliding-friction-checked", "HertzEll/curvature-ratio>=30", "CcsBrick/vertices-penetrating:4", "Smooth/rate:beyond-rebound-threshold",
                         "Exp/fz-clamped-at-max", "Exp/fz-clamped-at-0", "Exp/sliding-blend", "Exp/spring-model-limited"};
     c.directed.push_back({"hc-two-spheres-one-rebounding", "hc-return-on-rebound", [](pbt::Ctx& ctx) {
